@@ -29,6 +29,18 @@ def copy (s : Forest) (o : Nat) : Forest :=
     sens := fun j => if isNew j then (s.sens (src j)).map ren else s.sens j,
     colls := fun j => if isNew j then (s.colls (src j)).map ren else s.colls j }
 
+/-- `obj.copy()` as one more operation of the C11 state machine: histories may mix the
+tree-editing operations with copies; clones become ordinary objects addressable later on -/
+inductive COp where
+  | base (op : FOp)
+  | copy (o : Nat)
+  deriving Repr
+
+/-- one step of a history with copies; a copy of a non-existing object is refused -/
+def stepC (s : Forest) : COp → Forest × Bool
+  | .base op => s.step op
+  | .copy o => if o < s.n then (s.copy o, true) else (s, false)
+
 end Forest
 
 /-! ### label iteration -/
@@ -52,5 +64,15 @@ def addIterationSuffix (name : List Char) : List Char :=
   match splitTrailingDigits name with
   | (pre, []) => pre ++ (if name.getLast? = some '_' then [] else ['_']) ++ padded 1 2
   | (pre, ds) => pre ++ padded (digitsToNat ds + 1) ds.length
+
+/-- the label part of `BaseGeo.copy`: only when the original already has a style object or style
+keyword arguments (`styleTouched`) is a label written to the copy — the class name with `_01` when
+the original has no label, the iterated label otherwise; else the copy stays unlabelled -/
+def copyLabel (cls : List Char) (styleTouched : Bool) (label : Option (List Char)) : Option (List Char) :=
+  if styleTouched then
+    some (match label with
+      | none => cls ++ ['_', '0', '1']
+      | some l => addIterationSuffix l)
+  else none
 
 end MagpyVerif
